@@ -368,13 +368,32 @@ pub fn catch<T>(f: impl FnOnce() -> T) -> Option<T> {
 /// returned item, keys are the text before the first ':'); every page must respect
 /// `min(limit or 10, 30)`, never return the item named by the (exclusive) cursor, and all three walks must
 /// return the same sequence without repeating a key.  Returns a description of the first inconsistency.
+/// Upper bound on the pages of one listing walk (the widest scenario lists about 150 items one by one).
+pub const MAX_WALK_PAGES: usize = 600;
+
+/// Cursors already used in one listing walk: a cursor that comes back means the walk goes round in circles (a defect in
+/// the code under test, e.g. a page topped up with another owner's entries) - stop instead of writing gigabytes.
+#[derive(Default)]
+pub struct WalkGuard {
+    seen: std::collections::HashSet<String>,
+}
+impl WalkGuard {
+    pub fn fresh(&mut self, c: &Option<String>) -> bool {
+        match c {
+            Some(c) => self.seen.insert(c.clone()),
+            None => true,
+        }
+    }
+}
+
 pub fn paging_audit(name: &str, f: &dyn Fn(Option<String>, Option<u32>) -> Option<Vec<String>>) -> Option<String> {
     let mut walks: Vec<Vec<String>> = vec![];
     for limit in [Some(1u32), None, Some(1000u32)] {
         let cap = limit.unwrap_or(10).min(30) as usize;
         let mut out: Vec<String> = vec![];
         let mut cursor: Option<String> = None;
-        for _ in 0..10_000 {
+        let mut guard = WalkGuard::default();
+        for _ in 0..MAX_WALK_PAGES {
             match f(cursor.clone(), limit) {
                 Some(p) if !p.is_empty() => {
                     if p.len() > cap {
@@ -387,6 +406,9 @@ pub fn paging_audit(name: &str, f: &dyn Fn(Option<String>, Option<u32>) -> Optio
                         }
                     }
                     cursor = Some(p.last().unwrap().split(':').next().unwrap().to_string());
+                    if !guard.fresh(&cursor) {
+                        return Some(format!("{name}:cursor-comes-back-walk-never-ends"));
+                    }
                     out.extend(p);
                 }
                 _ => break,
@@ -441,11 +463,12 @@ pub fn paging_audit_cursors(
     // the full listing, walked with the default page size
     let mut full: Vec<String> = vec![];
     let mut cursor: Option<String> = None;
-    for _ in 0..10_000 {
+    let mut guard = WalkGuard::default();
+    for _ in 0..MAX_WALK_PAGES {
         match f(cursor.clone(), None) {
             Some(p) if !p.is_empty() => {
                 let next = p.last().unwrap().split(':').next().unwrap().to_string();
-                if cursor.as_deref() == Some(next.as_str()) {
+                if cursor.as_deref() == Some(next.as_str()) || !guard.fresh(&Some(next.clone())) {
                     break;
                 }
                 cursor = Some(next);
